@@ -153,3 +153,20 @@ impl State {
         Access::set_or_create(&mut self.last_access, path_id, version);
     }
 }
+
+#[cfg(feature = "verif-hooks")]
+impl State {
+    pub(super) fn verif_dump(&self) -> String {
+        let lock = match self.lock {
+            Some(id) => id.as_usize().to_string(),
+            None => "-".to_string(),
+        };
+        format!(
+            "Mutex sc={} lock={} la={} sync={}",
+            self.seq_cst as u8,
+            lock,
+            Access::verif_dump(&self.last_access),
+            self.synchronize.verif_dump()
+        )
+    }
+}
